@@ -568,9 +568,9 @@ def winstart_job(cs):
     return Job("h_winstart", variant="env%d" % cs, model=False, shim=False,
                defines={"_WIN32": 1, "_WIN64": 1, "VP_CFGSET": cs},
                cflags=["-I" + os.path.join(VERIF, "model", "win")],
-               unwind=14, timeout=900, solvers=("cadical", "minisat"),
+               unwind=16, timeout=900, solvers=("cadical", "minisat"),
                bounds={"calls": "one process_start", "failures": "at most one failing call per run",
-                       "environment_options": ["EMPTY", "EXTEND, GetEnvironmentStringsW returns NULL", "EMPTY (parent block available, unused)", "EXTEND with parent block {P=1}"][cs], "argv": "{p, 'x y'}", "environment": "parent block {P=1} or none, extra {A=b} or none",
+                       "environment_options": ["EMPTY", "EXTEND, GetEnvironmentStringsW returns NULL", "EMPTY (parent block available, unused)", "EXTEND with parent block {P=1}"][cs], "argv": "{p, 'x y'}", "environment": "parent block {P=1} or none, extra {A=b, C=d} or none",
                        "outcomes": "every Win32 call and every allocation succeeds or fails (any code 1..20000)"})
 
 add("C10", lambda tier: [winredir_job()])
@@ -586,7 +586,7 @@ for _p in WINSTART_PROPS:
         "Windows process_start: every Win32 call and allocation it makes is a stub that succeeds or fails; at most one "
         "call fails per run, with any code 1..20000 and any stale last-error value before it; utf16_from_utf8 is a stub "
         "returning pre-converted constant blocks chosen by the identity of its source (the source's text is checked); "
-        "fixed short argv {p, 'x y'}, environment {P=1}/none + {A=b}/none, working directory 'wd'/none; option combination "
+        "fixed short argv {p, 'x y'}, environment {P=1}/none + {A=b, C=d}/none, working directory 'wd'/none; option combination "
         "and position of an early failure are constants per call site of the harness, everything else is symbolic"]
 META["C10"]["units"] = START_UNITS + ["reproc/src/redirect.windows.c + handle.windows.c + error.windows.c (constants) "
                                       "under redirect.c's redirect_init / redirect_destroy, compiled with -D_WIN32 -D_WIN64"]
